@@ -98,7 +98,15 @@ func (w *World) buildTx(o TxOpts) ([]byte, error) {
 	if err := b.SetSignatures(sigs...); err != nil {
 		return nil, err
 	}
-	return cfg.TxEncoder()(b.GetTx())
+	raw, err := cfg.TxEncoder()(b.GetTx())
+	if err == nil && o.BadSig {
+		// ground truth for the admission oracles: these bytes carry a signature that does not verify
+		if w.BadSigTx == nil {
+			w.BadSigTx = map[string]bool{}
+		}
+		w.BadSigTx[txHash(raw)] = true
+	}
+	return raw, err
 }
 
 // decodeTx decodes transaction bytes. Bytes that the SDK decodes into a transaction without a body
@@ -119,6 +127,12 @@ func (w *World) decodeTx(raw []byte) (tx sdk.Tx, err error) {
 	_ = tx.GetMsgs()
 	if sv, ok := tx.(xauthsigning.SigVerifiableTx); ok {
 		sv.GetSigners()
+	}
+	if w.BadSigTx[txHash(raw)] {
+		if w.decodedBad == nil || len(w.decodedBad) > 4096 {
+			w.decodedBad = map[sdk.Tx]bool{}
+		}
+		w.decodedBad[tx] = true
 	}
 	return tx, nil
 }
